@@ -90,8 +90,11 @@ def op_args(kind):
         return st.just({})
     if kind == "get_breeze_state":
         return st.just({})
-    if kind in ("control_on", "control_off"):
+    if kind == "control_on":
         return st.one_of(st.just({}), minutes_ok.map(lambda m: {"minutes": m}))
+    if kind == "control_off":
+        # the timer is documented for turning on only: OFF with minutes > 0 is left unspecified and not generated
+        return st.sampled_from([{}, {"minutes": 0}])
     if kind == "set_auto_shutdown":
         return st.tuples(shutdown_ok, st.integers(0, 999_999)).map(lambda t: {"seconds": t[0], "micros": t[1]})
     if kind == "set_device_name":
